@@ -1150,10 +1150,24 @@ def spec_env():
         return z3.ZeroExt(w - x.size(), x)
     def trunc(x, w):
         return z3.Extract(w - 1, 0, x)
+    # Wide division is specified through ONE pair of uninterpreted symbols per width, standing for
+    # floor division / remainder of the unsigned values (divisor non-zero).  The signed operations
+    # are DEFINED from them exactly as SMT-LIB defines bvsdiv/bvsrem (magnitudes, then the sign:
+    # quotient negative iff the signs differ, remainder takes the sign of the dividend; MIN / -1
+    # wraps), so what is proved of the wrappers is their sign/magnitude/zero logic around the
+    # division core, whose agreement with these symbols is the summary's (bounded) business.
+    def udivw(a, b):
+        w = a.size()
+        return z3.Function("udiv%d" % w, z3.BitVecSort(w), z3.BitVecSort(w), z3.BitVecSort(w))(a, b)
+    def uremw(a, b):
+        w = a.size()
+        return z3.Function("urem%d" % w, z3.BitVecSort(w), z3.BitVecSort(w), z3.BitVecSort(w))(a, b)
     def tdiv(a, b):     # signed truncating division on bit-vectors (wraps for MIN / -1)
-        return a / b
+        q = udivw(z3.If(a < 0, -a, a), z3.If(b < 0, -b, b))
+        return z3.If((a < 0) != (b < 0), -q, q)
     def trem(a, b):
-        return z3.SRem(a, b)
+        r = uremw(z3.If(a < 0, -a, a), z3.If(b < 0, -b, b))
+        return z3.If(a < 0, -r, r)
     def wf(length, capacity, elem_size, alloc):
         if OPAQUE_MUL[0]:
             cap64 = z3.ZeroExt(32, capacity)
@@ -1191,7 +1205,7 @@ def spec_env():
     return {"wf": wf, "forall_i": forall_i, "mulmono": mulmono, "mulstep": mulstep, "mulbound": mulbound, "mulzero": mulzero, "mul": umul, "Select": z3.Select, "mulok": mulok,
             "ult": z3.ULT, "ule": z3.ULE, "ugt": z3.UGT, "uge": z3.UGE, "slt": lambda a, b: a < b, "sgt": lambda a, b: a > b,
             "sle": lambda a, b: a <= b, "sge": lambda a, b: a >= b,
-            "shl": shl, "lshr": lshr, "ashr": ashr, "sext": sext, "zext": zext, "trunc": trunc, "udiv": z3.UDiv, "urem": z3.URem,
+            "shl": shl, "lshr": lshr, "ashr": ashr, "sext": sext, "zext": zext, "trunc": trunc, "udiv": udivw, "urem": uremw,
             "tdiv": tdiv, "trem": trem, "If": z3.If, "And": z3.And, "Or": z3.Or, "Not": z3.Not, "Implies": z3.Implies,
             "bv": lambda v, w: z3.BitVecVal(v, w)}
 
@@ -1421,8 +1435,7 @@ def worker(job):
                   "solvers": {}, "secs": 0.0, "max_secs": 0.0, "failures": []}
             ts = time.time()
             try:
-                exe = B.build(repo, os.path.join(outdir, "bounded_" + c.name))
-                ncases, fail, family = B.FAMILIES[c.native](exe)
+                ncases, fail, family = B.FAMILIES[c.native](repo, os.path.join(outdir, "bounded_" + c.name))
                 ag["instances"] = ncases
                 ag["solvers"]["native-run(bounded)"] = ncases
                 fo["bounded"] = (c.bounded or "") + " — family: " + family + " (%d cases)" % ncases
@@ -1624,6 +1637,10 @@ def replay(repo, src, cpath, fname, model, alias_tag, scratch):
             post_env["result"] = z3.BoolVal(outv["result"][0] != 0)
         else:
             post_env["result"] = z3.BitVecVal(outv["result"][0], {"int": 32, "i32": 32}.get(c.ret, 64))
+    # on concrete operands the division symbols are the real operations
+    env = dict(env)
+    env["udiv"], env["urem"] = z3.UDiv, z3.URem
+    env["tdiv"], env["trem"] = (lambda a, b: a / b), (lambda a, b: z3.SRem(a, b))
     for rq in c.requires:
         if z3.is_false(z3.simplify(eval(rq, {**env, **post_env}))):
             return False, "model violates requires " + rq
